@@ -1,0 +1,46 @@
+//go:build verif
+// +build verif
+
+// Machine-checked contracts for this package (checked by /verif/govc).
+// Comment-only: no executable code.
+
+package keeper
+
+//@ import types "github.com/ovrclk/akash/x/deployment/types"
+
+// ---- store layout (C06) ----
+//@ spec abstract deploymentKeyOf(id: types.DeploymentID): str = "\x01" + id.Owner + be64(id.DSeq)
+//@ spec abstract groupKeyOf(id: types.GroupID): str = "\x02" + id.Owner + be64(id.DSeq) + be32(id.GSeq)
+//@ spec abstract groupsKeyOf(id: types.DeploymentID): str = "\x02" + id.Owner + be64(id.DSeq)
+
+//@ func deploymentKey
+//@   uses def:deploymentKeyOf
+//@   ensures result == deploymentKeyOf(id)
+//@ func groupKey
+//@   uses def:groupKeyOf
+//@   ensures result == groupKeyOf(id)
+//@ func groupsKey
+//@   uses def:groupsKeyOf
+//@   ensures result == groupsKeyOf(id)
+
+//@ spec daddrStrLen(): int
+//@ axiom daddrStrLenPos: daddrStrLen() > 0
+
+//@ lemma deploymentKeyInj(a: types.DeploymentID, b: types.DeploymentID)
+//@   theory strings
+//@   requires len(a.Owner) == daddrStrLen() && len(b.Owner) == daddrStrLen() && deploymentKeyOf(a) == deploymentKeyOf(b)
+//@   ensures a == b
+//@ lemma groupKeyInj(a: types.GroupID, b: types.GroupID)
+//@   theory strings
+//@   requires len(a.Owner) == daddrStrLen() && len(b.Owner) == daddrStrLen() && groupKeyOf(a) == groupKeyOf(b)
+//@   ensures a == b
+// a group key lies under a deployment's prefix exactly when the group belongs to that deployment
+//@ lemma groupsExact(g: types.GroupID, d: types.DeploymentID)
+//@   theory strings
+//@   requires len(g.Owner) == daddrStrLen() && len(d.Owner) == daddrStrLen()
+//@   ensures hasPrefix(groupKeyOf(g), groupsKeyOf(d)) <==> (g.Owner == d.Owner && g.DSeq == d.DSeq)
+//@ lemma dkindsDisjoint(d: types.DeploymentID, g: types.GroupID)
+//@   theory strings
+//@   ensures deploymentKeyOf(d) != groupKeyOf(g)
+
+//@ property C06 := deploymentKey#*, groupKey#*, groupsKey#*, lemma:deploymentKeyInj, lemma:groupKeyInj, lemma:groupsExact, lemma:dkindsDisjoint
